@@ -253,7 +253,10 @@ Definition c02_obs_full (tv : list (str * str * str)) (tc : list (str * key)) (t
 Definition c02_obs_e2e (tv : list (str * str * str)) (tc : list (str * key)) (tcc : list (str * str * str))
            (l : layout) (files : list (str * option env)) : str :=
   let v := if has_prefix (c02_obs tv tc tcc l files) (bs "OK") then bs "ACCEPT" else bs "REJECT" in
-  c02_obs_full tv tc tcc l files ++ bs ";V=" ++ v ++ bs ";VD=" ++ v.
+  c02_obs_full tv tc tcc l files ++ bs ";V=" ++ v ++ bs ";VD=" ++ v ++
+  (* the same two entry points called with a non-empty dictionary of parameters no rule mentions:
+     substitution changes nothing (C18), so the verdict is the same *)
+  bs ";VP=" ++ v ++ bs ";VDP=" ++ v.
 
 (* loader observable: verdict of LoadLinksForLayout and, per step, the sorted key ids of the loaded map *)
 Definition c02_loaded (l : layout) (files : list (str * option env)) : str :=
